@@ -194,6 +194,14 @@ def raw_graph(case):
         elif mu == "int-label":
             for k, n in enumerate(sp):
                 G.nodes[n]["label"] = 10 - 3 * k
+        elif mu == "set-attrs":               # kind / bipartite of one node set to a given combination (None = attribute absent)
+            which, kd, fl = case["attrs"]
+            n = (sp if which == "species" else rn)[0]
+            for key, val in (("kind", kd), ("bipartite", fl)):
+                if val is None:
+                    G.nodes[n].pop(key, None)
+                else:
+                    G.nodes[n][key] = val
         elif mu == "self-loop":
             G.add_edge(rn[pick % len(rn)], rn[pick % len(rn)], role="product", stoich=2)
         else:
@@ -283,4 +291,49 @@ def raw_cases(rng, count):
             c["par"] = [[rng.randrange(8), rng.choice(["reactant", "product", "product", None]), rng.choice([None, 1, 2, 3])]
                         for _ in range(rng.randint(0, 3))]
         out.append(c)
+    return out
+
+
+# ------------------------------------------------------------------ three-digit counts
+
+def hundred_classes(n=100):
+    """n disjoint classes X_i -> 2 X_i: n species, n reactions, 2n complexes, n linkage classes, rank n, deficiency 0 (three-digit
+    numbers of complexes / classes / class deficiencies; complex index 10 < 100 < 2 only as numbers)."""
+    sp = ADV.names(n, "num")
+    rxns = [["r_%d" % (k + 1), "r", [[sp[k], 1]], [[sp[k], 2]]] for k in range(n)]
+    return dict(kind="large", name="large/%d-classes" % n, rxns=rxns, iso=[], view="hyper", delta=0, wr=False)
+
+
+# ------------------------------------------------------------------ exhaustive small scopes of the two new layers
+
+def exhaustive_scripts():
+    """ALL call sequences of length 3 over six state-changing / state-reading calls with the network edited after the first call
+    (216), and ALL pairs over the ten call kinds without an edit (100), on A -> 2A -> 3A (deficiency 1, class deficiency 1; after the
+    knock-out 0 / 0)."""
+    import itertools
+    lad = ["A >> 2 A", "2 A >> 3 A"]
+    out = []
+    six = ["summary", "linkage", "one", "nondeg", "crn1", "check1"]
+    for k, seq in enumerate(itertools.product(six, repeat=3)):
+        c = _case("exh3/%s" % "-".join(seq), lad, [seq[0], ["del", "r_2"], seq[1], seq[2]], kind="api-seq-exh")
+        out.append(c)
+    for a, b in itertools.product(CALLS, repeat=2):
+        out.append(_case("exh2/%s-%s" % (a, b), lad, [a, b], kind="api-seq-exh"))
+    return out
+
+
+def exhaustive_attributes():
+    """ALL 16 combinations of kind in {species, reaction, other, absent} x bipartite in {0, 1, 2, absent} on one species node and on
+    one reaction node of A + B -> C, as DiGraph and as undirected Graph (the orientation rule of _as_bipartite reads the same two
+    attributes by ANOTHER rule than _split_species_reactions)."""
+    out = []
+    rx = G.net_from_strings(["A + B >> C"], "raw-graph")["rxns"]
+    kinds = ["species", "reaction", "other", None]
+    flags = [0, 1, 2, None]
+    for which in ("species", "reaction"):
+        for kd in kinds:
+            for fl in flags:
+                for und in (None, "graph"):
+                    out.append(dict(kind="raw-graph-exh", name="raw-exh/%s/%s/%s/%s" % (which, kd, fl, und or "digraph"), rxns=rx, iso=[],
+                                    view="bip_int", mut=["set-attrs"], attrs=[which, kd, fl], pick=0, **({"und": und} if und else {})))
     return out
